@@ -130,6 +130,180 @@ def startsRoot : List Char → Bool
   | '<' :: c :: _ => c != '!' && c != '?'
   | _ => false
 
+/-! ### The inside of the DOCTYPE declaration (XML 1.0 §2.8 [28]–[29], §4.2 [70]–[76], §4.7 [82])
+
+```
+doctypedecl ::= '<!DOCTYPE' S Name (S ExternalID)? S? ('[' intSubset ']' S?)? '>'
+intSubset   ::= (markupdecl | DeclSep)*          DeclSep ::= PEReference | S
+markupdecl  ::= elementdecl | AttlistDecl | EntityDecl | NotationDecl | PI | Comment
+EntityDecl  ::= '<!ENTITY' S Name S EntityDef S? '>'  |  '<!ENTITY' S '%' S Name S PEDef S? '>'
+EntityDef   ::= EntityValue | ExternalID (S 'NDATA' S Name)?       PEDef ::= EntityValue | ExternalID
+ExternalID  ::= 'SYSTEM' S SystemLiteral | 'PUBLIC' S PubidLiteral S SystemLiteral
+PEReference ::= '%' Name ';'
+```
+(conditional sections `<![…[` belong to the external subset only.)  Element, attribute-list and
+notation declarations are kept abstract: a keyword followed by characters and quoted literals up
+to the closing `>`. -/
+
+/-- a quoted literal: `dq = true` for `"…"`, else `'…'`; the text may contain anything but its quote
+— in particular `>` and `]` -/
+structure Lit where
+  dq : Bool
+  s : List Char
+
+def Lit.quote (l : Lit) : Char := if l.dq then '"' else '\''
+def Lit.wf (l : Lit) : Bool := !l.s.contains l.quote
+def Lit.render (l : Lit) : List Char := l.quote :: (l.s ++ [l.quote])
+
+/-- `ExternalID`: `pub = some (pubid, S)` for the PUBLIC form; `wk` = the S after the keyword -/
+structure ExtIdG where
+  pub : Option (Lit × List Char)
+  wk : List Char
+  sys : Lit
+
+def ExtIdG.render (x : ExtIdG) : List Char :=
+  match x.pub with
+  | none => "SYSTEM".toList ++ x.wk ++ x.sys.render
+  | some (p, wp) => "PUBLIC".toList ++ x.wk ++ p.render ++ wp ++ x.sys.render
+
+def wsOk (w : List Char) : Bool := w.all isWs
+def wsReq (w : List Char) : Bool := !w.isEmpty && w.all isWs
+def nameOk (n : List Char) : Bool := !n.isEmpty && n.all isNameChar
+
+def ExtIdG.wf (x : ExtIdG) : Bool :=
+  wsReq x.wk && x.sys.wf &&
+  (match x.pub with | none => true | some (p, wp) => p.wf && wsReq wp)
+
+inductive EntDef where
+  | value (l : Lit)                                        -- EntityValue
+  | ext (id : ExtIdG)                                      -- ExternalID
+  | ndata (id : ExtIdG) (w4 w5 : List Char) (n : List Char) -- ExternalID S 'NDATA' S Name
+
+/-- `EntityDecl` after the keyword `<!ENTITY`: S, optional `%` S, Name, S, definition, S?, `>` -/
+structure EntD where
+  w1 : List Char
+  param : Option (List Char)
+  name : List Char
+  w2 : List Char
+  defn : EntDef
+  w3 : List Char
+
+def EntDef.render : EntDef → List Char
+  | .value l => l.render
+  | .ext id => id.render
+  | .ndata id w4 w5 n => id.render ++ w4 ++ "NDATA".toList ++ w5 ++ n
+
+def EntD.render (e : EntD) : List Char :=
+  e.w1 ++ (match e.param with | none => [] | some w => '%' :: w) ++ e.name ++ e.w2 ++
+    e.defn.render ++ e.w3 ++ ['>']
+
+def EntD.wf (e : EntD) : Bool :=
+  wsReq e.w1 && (match e.param with | none => true | some w => wsReq w) && nameOk e.name &&
+  wsReq e.w2 && wsOk e.w3 &&
+  (match e.defn with
+   | .value l => l.wf
+   | .ext id => id.wf
+   | .ndata id w4 w5 n => id.wf && wsReq w4 && wsReq w5 && nameOk n && e.param.isNone)
+
+/-- the declaration the grammar derives -/
+def EntD.decl (e : EntD) : Decl :=
+  match e.defn with
+  | .value l => if e.param.isSome then .paramEntity (String.ofList e.name)
+                else .entity (String.ofList e.name) (String.ofList l.s)
+  | .ext _ => if e.param.isSome then .paramEntity (String.ofList e.name)
+              else .extEntity (String.ofList e.name)
+  | .ndata .. => .unparsed (String.ofList e.name)
+
+/-- a piece of an abstract declaration body: a character other than `>` `"` `'`, or a literal -/
+inductive Chunk where
+  | ch (c : Char)
+  | lit (l : Lit)
+
+def Chunk.wf : Chunk → Bool
+  | .ch c => c != '>' && c != '"' && c != '\''
+  | .lit l => l.wf
+
+def Chunk.render : Chunk → List Char
+  | .ch c => [c]
+  | .lit l => l.render
+
+def renderChunks (cks : List Chunk) : List Char := cks.flatMap Chunk.render
+
+/-- one item of the internal subset -/
+inductive SubItem where
+  | comment (body : List Char)
+  | pi (body : List Char)
+  | peRef (name : List Char)
+  | entity (e : EntD)
+  | element (body : List Chunk)
+  | attlist (body : List Chunk)
+  | notation (body : List Chunk)
+
+def SubItem.wf : SubItem → Bool
+  | .comment b => noDD b
+  | .pi b => noQG b
+  | .peRef n => nameOk n
+  | .entity e => e.wf
+  | .element b | .attlist b | .notation b => b.all Chunk.wf
+
+def SubItem.render : SubItem → List Char
+  | .comment b => '<' :: '!' :: '-' :: '-' :: (b ++ ['-', '-', '>'])
+  | .pi b => '<' :: '?' :: (b ++ ['?', '>'])
+  | .peRef n => '%' :: (n ++ [';'])
+  | .entity e => "<!ENTITY".toList ++ e.render
+  | .element b => "<!ELEMENT".toList ++ renderChunks b ++ ['>']
+  | .attlist b => "<!ATTLIST".toList ++ renderChunks b ++ ['>']
+  | .notation b => "<!NOTATION".toList ++ renderChunks b ++ ['>']
+
+/-- `intSubset`: items, each preceded by optional white space -/
+def renderSubset : List (List Char × SubItem) → List Char
+  | [] => []
+  | (w, it) :: r => w ++ it.render ++ renderSubset r
+
+def subsetWf (items : List (List Char × SubItem)) : Bool :=
+  items.all fun (w, it) => wsOk w && it.wf
+
+/-- the declarations the grammar derives, with the non-validating-processor rule of §5.1: entity
+declarations after a parameter-entity reference are not processed (recorded as inert) -/
+def subsetDecls : Bool → List (List Char × SubItem) → List Decl
+  | _, [] => []
+  | live, (_, it) :: r =>
+    match it with
+    | .comment _ => .comment :: subsetDecls live r
+    | .pi _ => .pi :: subsetDecls live r
+    | .peRef _ => subsetDecls false r
+    | .entity e => (if live then e.decl else .element) :: subsetDecls live r
+    | .element _ => .element :: subsetDecls live r
+    | .attlist _ => .attlist :: subsetDecls live r
+    | .notation _ => .notation :: subsetDecls live r
+
+/-- does the grammar derive a *processed* entity declaration in this subset? -/
+def derivesEntityDecl : Bool → List (List Char × SubItem) → Bool
+  | _, [] => false
+  | live, (_, it) :: r =>
+    match it with
+    | .entity _ => live || derivesEntityDecl live r
+    | .peRef _ => derivesEntityDecl false r
+    | _ => derivesEntityDecl live r
+
+/-- the whole `doctypedecl` after the keyword `<!DOCTYPE` -/
+structure DoctypeG where
+  w1 : List Char                              -- S
+  name : List Char
+  ext : Option (List Char × ExtIdG)           -- (S ExternalID)?
+  w2 : List Char                              -- S?
+  subset : Option (List (List Char × SubItem) × List Char × List Char)   -- '[' items S? ']' S?
+
+def DoctypeG.render (d : DoctypeG) : List Char :=
+  d.w1 ++ d.name ++ (match d.ext with | none => [] | some (w, x) => w ++ x.render) ++ d.w2 ++
+  (match d.subset with | none => [] | some (items, wi, w3) => '[' :: (renderSubset items ++ wi ++ ']' :: w3)) ++
+  ['>']
+
+def DoctypeG.wf (d : DoctypeG) : Bool :=
+  wsReq d.w1 && nameOk d.name && wsOk d.w2 &&
+  (match d.ext with | none => true | some (w, x) => wsReq w && x.wf) &&
+  (match d.subset with | none => true | some (items, wi, w3) => subsetWf items && wsOk wi && wsOk w3)
+
 end PrologGrammar
 
 end EPV.GlobalsSpec
